@@ -112,9 +112,10 @@ func (server *SugarDB) handleCommand(ctx context.Context, message []byte, conn *
 		ctx = context.WithValue(ctx, "ConnectionName", server.connInfo.embedded.Name)
 		ctx = context.WithValue(ctx, "Protocol", server.connInfo.embedded.Protocol)
 		ctx = context.WithValue(ctx, "Database", server.connInfo.embedded.Database)
-	} else {
+	} else if !replay {
 		// The call is triggered by a TCP connection.
 		// Add TCP connection info to the context of the request.
+		// (When replaying the append-only log, the context already carries the database of the logged command.)
 		ctx = context.WithValue(ctx, "ConnectionName", server.connInfo.tcpClients[conn].Name)
 		ctx = context.WithValue(ctx, "Protocol", server.connInfo.tcpClients[conn].Protocol)
 		ctx = context.WithValue(ctx, "Database", server.connInfo.tcpClients[conn].Database)
